@@ -35,7 +35,7 @@ static void case_c01(const drvargs_t *a,long id){
   res_eval(1);
   if(ldec_open(&L,&pk,&herr)){ res_viol("C01","valid-headers-rejected","libvorbis refused headers the specification accepts (code %d): %s [%s]",herr,desc,sp_profile_name(profile)); goto out; }
   {
-    sp_dec *D=sp_dec_new(P); int ch=S->channels; if(vh_trace) sp_dec_rawblock(D); double prevnorm=0; int prev_bad=0, prev_f0=0; long ncompared=0; long total=0; int ok=1; double worst=0; long f0blocks=0;
+    sp_dec *D=sp_dec_new(P); int ch=S->channels; if(vh_trace) sp_dec_rawblock(D); double prevnorm=0; double prevch[256]; memset(prevch,0,sizeof prevch); int prev_bad=0, prev_f0=0; long ncompared=0; long total=0; int ok=1; double worst=0; long f0blocks=0;
     ogg_int64_t gprev=0;
     for(int i=3;i<pk.n && ok;i++){
       ogg_packet op; pkt_to_ogg(&pk.v[i],&op); sp_pktinfo I; double **ref;
@@ -58,10 +58,15 @@ static void case_c01(const drvargs_t *a,long id){
       gprev+=I.nout;
       float **pcm; long got=0; int n;
       double tol=(I.floor0_used||prev_f0?2e-2:1e-4)*(prevnorm+I.norm)+1e-7; int skip=I.nonfinite || prev_bad || !(prevnorm+I.norm<1e25);
+      if(!skip && expect>0) for(int c=0;c<ch&&c<256;c++) if(prevch[c]==0 && I.chnorm[c]==0){ res_count(I.floor0_used||prev_f0?"silent_channel_blocks_judged_exactly_floor0":"silent_channel_blocks_judged_exactly",1); }
       while((n=vorbis_synthesis_pcmout(&L.vd,&pcm))>0){
         if(!skip) for(int c=0;c<ch&&ok;c++) for(int k=0;k<n;k++){
           long ix=got+k; if(ix>=expect) break;
           double d=fabs((double)pcm[c][k]-ref[c][ix]);
+          /* per-channel scale as well: once coupling is undone a channel's samples depend on its own spectrum only, so a quiet (or silent) channel next to a loud one is
+             held to its own norm (the coupling operands' magnitudes are already part of it) */
+          double tolc= c<256? (I.floor0_used||prev_f0?2e-2:1e-4)*(prevch[c]+I.chnorm[c]) + 1e-7 : tol;
+          if(d<=tol && !(d<=tolc)){ res_viol("C01",I.floor0_used?"sample-differs-floor0:channel-scale":"sample-differs:channel-scale","packet %d (mode %d W %d n %ld) ch %d sample %ld: libvorbis %.9g model %.9g (channel tolerance %.3g, channel norm %.3g, block norm %.3g): %s [%s]",i-3,I.mode,I.blockflag,I.n,c,ix,pcm[c][k],ref[c][ix],tolc,prevch[c]+I.chnorm[c],prevnorm+I.norm,desc,sp_profile_name(profile)); ok=0; break; }
           if(!(d<=tol)){ res_viol("C01",I.floor0_used?"sample-differs-floor0":"sample-differs","packet %d (mode %d W %d n %ld) ch %d sample %ld: libvorbis %.9g model %.9g (tol %.3g, norm %.3g): %s [%s]",i-3,I.mode,I.blockflag,I.n,c,ix,pcm[c][k],ref[c][ix],tol,prevnorm+I.norm,desc,sp_profile_name(profile)); ok=0; break; }
           if(prevnorm+I.norm>0){ double rel=d/(prevnorm+I.norm+1e-30); if(rel>worst) worst=rel; }
         }
@@ -70,7 +75,7 @@ static void case_c01(const drvargs_t *a,long id){
       if(ok && got!=expect){ res_viol("C01","sample-count-differs","packet %d (W %d, eos %d): libvorbis produced %ld samples, specification %ld: %s [%s]",i-3,I.blockflag,(int)op.e_o_s,got,expect,desc,sp_profile_name(profile)); ok=0; }
       if(skip) res_count(I.nonfinite==2||prev_bad==2?"blocks_not_judged_coupling_branch_undecidable":"blocks_not_judged_ill_conditioned_or_huge",1); else { res_count("blocks_compared",1); ncompared++; }
       if(I.floor0_used) f0blocks++;
-      total+=got; prevnorm=I.norm; prev_bad=I.nonfinite; prev_f0=I.floor0_used;
+      total+=got; prevnorm=I.norm; prev_bad=I.nonfinite; prev_f0=I.floor0_used; for(int c=0;c<ch&&c<256;c++) prevch[c]=I.chnorm[c];
     }
     if(ok && ncompared==0) res_count("streams_with_no_block_judged",1);
     if(ok && ncompared>0){
